@@ -475,14 +475,15 @@ def plan_d1(ctx, mods, thorough):
                 kinds = list(MUT_KINDS) + ["attr:" + att for att in ("other", "ref_pos") if x is not None and isinstance(x.__dict__.get(att), np.ndarray)]
                 for mk in kinds:
                     plan = (wname, dname, tl, tg, mk, names, singles)
-                    is_core = (mk == "row0" or mk.startswith("attr:")) and (thorough or wname in QUICK_WORLDS)
+                    is_core = ((mk == "row0" or mk.startswith("attr:")) and (thorough or wname in QUICK_WORLDS)
+                               or (mk.startswith("attr:") and dname.startswith("to:")))  # an attachment replaced on a handed-out conversion
                     (core if is_core else rest).append(plan)
             core.append((wname, dname, "derived", targets[0][1], "none", names, singles))
     # every core plan with everything read early; a random sample of all plans with one early read (and of the other
     # kinds of keys / other worlds with everything read early)
-    jobs = [(pl, e) for pl in core for e in ("all", "fields", "systems")]
+    jobs = [(pl, e) for pl in core for e in (("all", "fields", "systems") if thorough else ("all", "fields"))]
     # one derived quantity alone (no conversion is made on the way: nothing registers the object anywhere)
-    jobs += [(pl, [f]) for pl in core for f in ("distance", "direction") if f in pl[5]]
+    jobs += [(pl, [f]) for pl in core for f in (("distance", "direction") if thorough else ("distance",)) if f in pl[5]]
     for _ in range(ctx.budget(500, 14000)):
         pl = rng.choice(core + rest)
         jobs.append((pl, "all" if pl in rest and rng.random() < 0.4 else [rng.choice(pl[6] if rng.random() < 0.8 else pl[5])]))
@@ -568,7 +569,9 @@ def run_d1(ctx, mods, thorough):
 
 EXCLUDED_METHODS = {"add_dependency", "remove_dependency", "to_system", "subset", "insert", "unit", "create", "convert_to",
                     "__setattr__", "__getattr__", "__getitem__", "__setitem__", "__deepcopy__", "__array_finalize__", "__new__",
-                    "_clear_dependent_caches", "_share_memory_with", "_read", "_write"}
+                    "_clear_dependent_caches", "_share_memory_with", "_read", "_write",
+                    # NumPy protocol hooks (called by NumPy with its own output arrays, not with another position)
+                    "__array_wrap__", "__array_ufunc__", "__array_function__", "__array_prepare__"}
 
 
 def methods_with_object_argument(q):
@@ -777,25 +780,25 @@ ROUTES = {
     "p /= 2": ("augmented", "not-in-place", lambda p: p.__itruediv__(2.0)),
     "p.resize(p.shape)": ("resize", "not-in-place", lambda p: p.resize(p.shape)),
     "p.resize((1, 3))": ("resize", "not-in-place", lambda p: p.resize((1, 3))),
-    "np.add(p, 1000, out=p)": ("ufunc-out", "stale", lambda p: np.add(p, 1000.0, out=p)),
-    "np.multiply(a, .99, out=p)": ("ufunc-out", "stale", lambda p: np.multiply(np.asarray(p), 0.99, out=p)),
-    "np.add.at(p, (0, 0), 5000)": ("ufunc-out", "stale", lambda p: np.add.at(p, (0, 0), 5000.0)),
-    "p.clip(0, 5e6, out=p)": ("ufunc-out", "stale", lambda p: p.clip(0, 5e6, out=p)),
-    "p.round(-3, out=p)": ("ufunc-out", "stale", lambda p: p.round(-3, out=p)),
-    "np.cumsum(a, axis=0, out=p)": ("ufunc-out", "stale", lambda p: np.cumsum(np.asarray(p), axis=0, out=p)),
-    "np.matmul(a, m, out=p)": ("ufunc-out", "stale", lambda p: np.matmul(np.asarray(p), np.eye(3) * 0.99, out=p)),
-    "np.dot(a, m, out=p)": ("ufunc-out", "stale", lambda p: np.dot(np.asarray(p), np.eye(3) * 0.99, out=p)),
-    "np.take(a, idx, axis=0, out=p)": ("ufunc-out", "stale", lambda p: np.take(np.asarray(p), list(range(len(p)))[::-1], axis=0, out=p)),
+    "np.add(p, 1000, out=p)": ("ufunc-out", "invalidates", lambda p: np.add(p, 1000.0, out=p)),
+    "np.multiply(a, .99, out=p)": ("ufunc-out", "invalidates", lambda p: np.multiply(np.asarray(p), 0.99, out=p)),
+    "np.add.at(p, (0, 0), 5000)": ("c-level-write", "stale", lambda p: np.add.at(p, (0, 0), 5000.0)),
+    "p.clip(0, 5e6, out=p)": ("ufunc-out", "invalidates", lambda p: p.clip(0, 5e6, out=p)),
+    "p.round(-3, out=p)": ("ufunc-out", "invalidates", lambda p: p.round(-3, out=p)),
+    "np.cumsum(a, axis=0, out=p)": ("c-level-write", "stale", lambda p: np.cumsum(np.asarray(p), axis=0, out=p)),
+    "np.matmul(a, m, out=p)": ("ufunc-out", "invalidates", lambda p: np.matmul(np.asarray(p), np.eye(3) * 0.99, out=p)),
+    "np.dot(a, m, out=p)": ("c-level-write", "stale", lambda p: np.dot(np.asarray(p), np.eye(3) * 0.99, out=p)),
+    "np.take(a, idx, axis=0, out=p)": ("c-level-write", "stale", lambda p: np.take(np.asarray(p), list(range(len(p)))[::-1], axis=0, out=p)),
     "np.copyto(p, v)": ("c-level-write", "stale", lambda p: np.copyto(p, np.asarray(p) * 0.99)),
-    "p.fill(v)": ("c-level-write", "stale", lambda p: p.fill(6.0e6)),
-    "p.put(0, v)": ("c-level-write", "stale", lambda p: p.put(0, 1.3e6)),
-    "np.put(p, 0, v)": ("c-level-write", "stale", lambda p: np.put(p, 0, 1.3e6)),
+    "p.fill(v)": ("method", "invalidates", lambda p: p.fill(6.0e6)),
+    "p.put(0, v)": ("method", "invalidates", lambda p: p.put(0, 1.3e6)),
+    "np.put(p, 0, v)": ("method", "invalidates", lambda p: np.put(p, 0, 1.3e6)),
     "np.place(p, mask, v)": ("c-level-write", "stale", lambda p: np.place(p, np.asarray(p) > 6e6, 6.1e6)),
     "np.putmask(p, mask, v)": ("c-level-write", "stale", lambda p: np.putmask(p, np.asarray(p) > 6e6, 6.1e6)),
-    "p.setfield(v, float)": ("c-level-write", "stale", lambda p: p.setfield(6.0e6, np.float64)),
-    "p.byteswap(inplace=True)": ("c-level-write", "stale", lambda p: p.byteswap(inplace=True)),
-    "p.sort(axis=0)": ("sort", "stale", lambda p: p.sort(axis=0)),
-    "p.partition(1, axis=0)": ("sort", "stale", lambda p: p.partition(1, axis=0)),
+    "p.setfield(v, float)": ("method", "invalidates", lambda p: p.setfield(6.0e6, np.float64)),
+    "p.byteswap(inplace=True)": ("method", "invalidates", lambda p: p.byteswap(inplace=True)),
+    "p.sort(axis=0)": ("method", "invalidates", lambda p: p.sort(axis=0)),
+    "p.partition(1, axis=0)": ("method", "invalidates", lambda p: p.partition(1, axis=0)),
     "p.flat[0] = v": ("flat-iterator-buffer", "stale", lambda p: p.flat.__setitem__(0, 1.3e6)),
     "np.nditer(p, readwrite)": ("flat-iterator-buffer", "stale", lambda p: [x.__setitem__(..., x * 0.99) for x in np.nditer(p, op_flags=["readwrite"])][:0]),
     "memoryview(p) write": ("flat-iterator-buffer", "stale", lambda p: memoryview(p).cast("B").cast("d").__setitem__(0, 1.3e6)),
